@@ -28,6 +28,7 @@ func newDir(c *fw.Ctx) string {
 
 func condYTrue(d map[string]interface{}) bool { v, ok := d["y"].(bool); return ok && v }
 func condRA(d map[string]interface{}) bool    { v, ok := d["r"].(string); return ok && v == "A" }
+func condRB(d map[string]interface{}) bool    { v, ok := d["r"].(string); return ok && v == "B" }
 
 // Standard schema family S (DESIGN.md §3).
 func tableT1() *rm.Table {
@@ -46,6 +47,11 @@ func tableT1() *rm.Table {
 			{Name: "ay", Expr: rm.If{CondSQL: "y = true", Cond: condYTrue, X: sumA}},
 			{Name: "bav", Expr: rm.Agg{Kind: "AVG", Val: "a", Bounded: true, Lo: 0, Hi: 2}},
 			{Name: "b", Expr: rm.Agg{Kind: "SUM", Val: "b"}},
+			// composite fields with an IF whose condition varies inside a group (r is not a group-by dimension): as
+			// the left operand, as the right operand, and on both sides
+			{Name: "ifl", Expr: rm.Bin{Op: "/", L: rm.If{CondSQL: "r = 'A'", Cond: condRA, X: sumA}, R: rm.Agg{Kind: "COUNT", Val: "a"}}},
+			{Name: "ifr", Expr: rm.Bin{Op: "-", L: rm.Agg{Kind: "MAX", Val: "a"}, R: rm.If{CondSQL: "r = 'A'", Cond: condRA, X: sumA}}},
+			{Name: "ifb", Expr: rm.Bin{Op: "*", L: rm.If{CondSQL: "r = 'B'", Cond: condRB, X: rm.Agg{Kind: "COUNT", Val: "a"}}, R: rm.If{CondSQL: "r = 'A'", Cond: condRA, X: rm.Agg{Kind: "MIN", Val: "a"}}}},
 		},
 	}
 }
@@ -153,6 +159,12 @@ func compareRows(res *dbdrv.Result, exp []rm.Row, fieldNames []string, asOf, unt
 			if inWindow {
 				diffs = append(diffs, fmt.Sprintf("missing row ts=%d key=%s expected=%v", e.TS, e.Key, e.Vals))
 			}
+			continue
+		}
+		if e.TS <= asOf {
+			// the period has left the retention window: retention may already have dropped some of its points
+			// (the memstore side of a merge is truncated when it is read, the file side when it is next
+			// rewritten), so its values are no longer determined; what retention may and may not do is C14's subject
 			continue
 		}
 		for i := range fieldNames {
